@@ -119,6 +119,14 @@ class Translator:
             return f"(TPrim {cstr(q)})"
         return f"(TOther {cstr(repr(t)[:60])} [])"
 
+    def default_cls(self, cls, f) -> str:
+        d = f.default
+        if d is dataclasses.MISSING or isinstance(d, type) or not dataclasses.is_dataclass(d):
+            return "None"
+        if type(d) not in self.class_index:
+            raise Unrepresentable(f"default of {cls!r}.{f.name} is an instance of a class outside the schema")
+        return f"(Some {self.class_index[type(d)]}%nat)"
+
     def meta(self, m) -> str:
         if isinstance(m, bool):
             return f"(MBool {cbool(m)})"
@@ -172,8 +180,14 @@ class Translator:
             if isinstance(hdr, type):
                 out.append(hdr)
             if dataclasses.is_dataclass(cls):
+                hints = None
                 for f in dataclasses.fields(cls):
-                    stack = [f.type]
+                    ftype = f.type
+                    if isinstance(ftype, str):
+                        if hints is None:
+                            hints = typing.get_type_hints(cls)
+                        ftype = hints[f.name]
+                    stack = [ftype]
                     while stack:
                         t = stack.pop()
                         if isinstance(t, type) and dataclasses.is_dataclass(t):
@@ -231,17 +245,24 @@ class Translator:
                       f"dp_unsafe_hash := {cbool(p.unsafe_hash)}; dp_slots := {cbool(slots)}; "
                       f"dp_kw_only := {cbool(kw_only)}; dp_init := {cbool(p.init)}; dp_repr := {cbool(p.repr)} |}}")
             flds = []
+            hints = None
             for f in fields:
+                ftype = f.type
+                if isinstance(ftype, str):
+                    # `from __future__ import annotations`: resolve the string as Python would
+                    if hints is None:
+                        hints = typing.get_type_hints(cls)
+                    ftype = hints[f.name]
                 if f.default_factory is not dataclasses.MISSING:
                     raise Unrepresentable(f"default_factory on {cls!r}.{f.name}")
                 default = None if f.default is dataclasses.MISSING else self.value(f.default)
                 kafka = f.metadata.get("kafka_type") if "kafka_type" in f.metadata else None
                 tag = f.metadata.get("tag") if "tag" in f.metadata else None
                 flds.append(
-                    f"{{| rf_name := {cstr(f.name)}; rf_ann := {self.ann(f.type)}; "
+                    f"{{| rf_name := {cstr(f.name)}; rf_ann := {self.ann(ftype)}; "
                     f"rf_kafka := {copt(kafka, self.meta) if 'kafka_type' in f.metadata else 'None'}; "
                     f"rf_tag := {copt(tag, self.meta) if 'tag' in f.metadata else 'None'}; "
-                    f"rf_default := {copt(default)} |}}")
+                    f"rf_default := {copt(default)}; rf_default_cls := {self.default_cls(cls, f)} |}}")
         else:
             params = ("{| dp_frozen := false; dp_eq := false; dp_order := false; dp_unsafe_hash := false; "
                       "dp_slots := false; dp_kw_only := false; dp_init := false; dp_repr := false |}")
